@@ -683,4 +683,17 @@ theorem satisfies_ok_true_iff (cap req : Hardware) (hc : ValidMap cap.storage) (
     · intro h; cases h
     · rintro ⟨h1, h2, _⟩; exact absurd ⟨h1, h2⟩ hcm
 
+/-- what `a + b` is: cores and memory add, every mount point gets the sum of the two totals -/
+theorem add_totals_lem (a b s : Hardware) (h : a.add b = .ok s) :
+    s.cores = a.cores + b.cores ∧ s.memory = a.memory + b.memory ∧
+    ∀ μ, mountTotal s.storage μ = mountTotal a.storage μ + mountTotal b.storage μ := by
+  simp only [Hardware.add, bind_eq_ok] at h
+  obtain ⟨sa, hsa, sb, hsb, st, hst, e⟩ := h
+  cases e
+  refine ⟨rfl, rfl, fun μ => ?_⟩
+  rw [mkHardware_total, reduceFrom_add_total hst, listTotal_append, ← mountTotal_eq_listTotal,
+    ← mountTotal_eq_listTotal, normalizeStorage_total hsa, normalizeStorage_total hsb]
+  have : mountTotal [] μ = 0 := rfl
+  grind
+
 end SFV.HW
